@@ -35,6 +35,11 @@ func RaceWorker(o Opts, from, stride int) {
 		sc := p.Generate(NewRand(seed), o.Tier)
 		sc.Prop, sc.Seed, sc.Tier = o.Prop, seed, o.Tier
 		fmt.Printf("RUN %d\n", idx)
+		if f := os.Getenv("QV_STAGEB_SCEN"); f != "" {
+			// the scenario being run, for the parent to pick up if the race detector stops this process
+			b, _ := json.Marshal(sc)
+			os.WriteFile(f, b, 0o644)
+		}
 		out := SafeExecute(p, sc)
 		runs++
 		if out.Violation != nil {
@@ -72,7 +77,9 @@ func StageB(o Opts, raceRunner string, workers int, budget time.Duration) StageB
 			if w%2 == 1 {
 				gmp = "4"
 			}
-			cmd.Env = append(os.Environ(), "GOMAXPROCS="+gmp, "GORACE=halt_on_error=1 exitcode=66")
+			scenFile := filepath.Join(os.TempDir(), fmt.Sprintf("qv-stageb-%d-%d.json", os.Getpid(), w))
+			cmd.Env = append(os.Environ(), "GOMAXPROCS="+gmp, "GORACE=halt_on_error=1 exitcode=66", "QV_STAGEB_SCEN="+scenFile)
+			defer os.Remove(scenFile)
 			var so, se bytes.Buffer
 			cmd.Stdout, cmd.Stderr = &so, &se
 			err := cmd.Run()
@@ -109,7 +116,14 @@ func StageB(o Opts, raceRunner string, workers int, budget time.Duration) StageB
 				txt = txt[:3000]
 			}
 			r.RaceText = txt
-			r.Violation = &FoundViolation{Idx: idx, V: Violation{Oracle: "data-race", Msg: "stage B: the Go race detector reported a data race while the tasks of this scenario ran in parallel:\n" + txt}}
+			fv := &FoundViolation{Idx: idx, V: Violation{Oracle: "data-race", Msg: "stage B: the Go race detector reported a data race while the tasks of this scenario ran in parallel:\n" + txt}}
+			if b, err := os.ReadFile(filepath.Join(os.TempDir(), fmt.Sprintf("qv-stageb-%d-%d.json", os.Getpid(), x.w))); err == nil {
+				var sc Scenario
+				if json.Unmarshal(b, &sc) == nil {
+					fv.Scenario = &sc
+				}
+			}
+			r.Violation = fv
 		} else if x.err != nil && r.Violation == nil && r.Err == nil && !strings.Contains(x.out, "VIOL ") {
 			r.Err = fmt.Errorf("race worker %d failed: %v\n%s", x.w, x.err, x.errs)
 		}
